@@ -449,6 +449,12 @@ class Executor(Exec):
         if isinstance(fn, Opaque) and fn.label.startswith("import "):
             # constructor / function of a third-party package: only by an (assumed) contract given as effect
             short = fn.label.rsplit(".", 1)[-1]
+            if fn.label == "import dataclasses.field":  # default of a dataclass field
+                if "default_factory" in kwargs:
+                    return self.call(kwargs["default_factory"], [], {})
+                if "default" in kwargs:
+                    return kwargs["default"]
+                raise OutOfSubset("dataclasses.field without default")
             u = self._uses(f"opaque.{short}")
             if u == "skip":
                 return None
